@@ -561,8 +561,11 @@ WMPT = dict(
     name="wmpt", component="wmpt", trace_module="WMPTTrace", trace_cfg="WMPTTrace.cfg",
     design={"quick": [("WMPT_MC", "WMPT_MCq.cfg")], "thorough": [("WMPT_MC", "WMPT_MC.cfg")]},
     gen={"quick": [dict(module="WMPT_MC", cfg="WMPT_gen_sim.cfg", workers=1,
-                        extra=["-simulate", "num=1200", "-depth", "20", "-seed", "{seed}"])],
-         "thorough": [dict(module="WMPT_MC", cfg="WMPT_gen_ex.cfg", workers=1, timeout=3000),
+                        extra=["-simulate", "num=1200", "-depth", "20", "-seed", "{seed}"]),
+                   dict(module="WMPT_MC", cfg="WMPT_gen_ex.cfg", workers=8),
+                   dict(module="WMPT_MC", cfg="WMPT_gen_gc.cfg", workers=8)],
+         "thorough": [dict(module="WMPT_MC", cfg="WMPT_gen_ex.cfg", workers=8, timeout=3000),
+                      dict(module="WMPT_MC", cfg="WMPT_gen_gc8.cfg", workers=8, timeout=3000),
                       dict(module="WMPT_MC", cfg="WMPT_gen_sim.cfg", workers=1, timeout=3000,
                            extra=["-simulate", "num=40000", "-depth", "20", "-seed", "{seed}"])]},
     exec_args=lambda tier, seed: (["-n", 1200] if tier == "quick" else ["-n", 30000]),
@@ -571,9 +574,10 @@ WMPT = dict(
            "C13": {"rollbackroot", "rollbackweight", "rollbackdamage", "rollbackleft", "rollbackreopen", "rollbackdurable"}},
     distinct=lambda s: s.get("distinct_signatures", 0),
     rule="histories = (a) behaviours of WMPT.tla (update/delete/commit at levels 0,1,3/gc/reload/readroot/owners/saveroot/"
-         "rollback) emitted by TLC -simulate (thorough: plus every behaviour of depth 4 over 2 keys); (b) seeded random histories "
-         "in generator modes plain/shared/dirty/again/all and checkpoint-commit-rollback scenarios, over ten 32-byte keys sharing "
-         "prefixes of 0..63 nibbles; one trace event per storage write element; reopen from (root, weight) after every commit, gc "
+         "rollback) emitted by TLC: -simulate samples, every behaviour of depth 4 over 2 keys x 3 values, and every behaviour of depth 7 "
+         "(thorough: 8) of the storage protocol alone (update/delete/commit/gc/saveroot/rollback, SpecGC) over one key; (b) seeded random "
+         "histories in generator modes plain/shared/dirty/again/all and checkpoint-commit-rollback scenarios; all rotated over three key "
+         "universes (prefix universe, 4-nibble 0/1 window at the head / tail of the key); one trace event per storage write element; reopen from (root, weight) after every commit, gc "
          "and rollback; distinct_nontrivial = distinct operation-kind signatures of whole histories",
     summary_keys=["commits", "gcs", "owner_observations", "rollbacks", "distinct_nodes", "generator_modes", "go_histories", "panics"],
     ops_of=_wmpt_ops,
